@@ -17,6 +17,7 @@ extern const struct dispatch_data_format_type_s _dispatch_data_format_type_none,
 dispatch_data_t dispatch_data_create_with_transform(dispatch_data_t, const struct dispatch_data_format_type_s*, const struct dispatch_data_format_type_s*);
 dispatch_queue_attr_t dispatch_queue_attr_make_with_overcommit(dispatch_queue_attr_t, bool);
 extern uint64_t _dispatch_verif_timeout(dispatch_time_t when);
+extern uint64_t _dispatch_verif_time_since_epoch(dispatch_time_t when);
 extern void _dispatch_verif_queue_peek(dispatch_queue_t dq, uint16_t *width, uint64_t *state, uint32_t *priority, const char **target_label);
 void dispatch_async_and_wait_f(dispatch_queue_t, void*, dispatch_function_t);
 extern unsigned long _dispatch_verif_compute_missed(uint64_t *target, uint64_t *deadline, uint64_t interval, uint64_t now, unsigned long prev);
@@ -110,6 +111,9 @@ int main(void){
     else if(!strcmp(tok,"TO")){ uint64_t w=strtoull(strtok(NULL," \n"),NULL,10);
       fake_up=strtoull(strtok(NULL," \n"),NULL,10); fake_mono=strtoull(strtok(NULL," \n"),NULL,10); fake_wall=strtoull(strtok(NULL," \n"),NULL,10);
       fake_clocks=1; uint64_t r=_dispatch_verif_timeout(w); fake_clocks=0; printf("%" PRIu64 "\n",r); }
+    else if(!strcmp(tok,"TE")){ uint64_t w=strtoull(strtok(NULL," \n"),NULL,10);
+      fake_up=strtoull(strtok(NULL," \n"),NULL,10); fake_mono=strtoull(strtok(NULL," \n"),NULL,10); fake_wall=strtoull(strtok(NULL," \n"),NULL,10);
+      fake_clocks=1; uint64_t r=_dispatch_verif_time_since_epoch(w); fake_clocks=0; printf("%" PRIu64 "\n",r); }
     else if(!strcmp(tok,"X2")){   /* X2 <infmt> <outfmt> <hex>|<hex>|... : transform of a fragmented object */
       const struct dispatch_data_format_type_s *fi=fmt_of(strtok(NULL," \n")), *fo=fmt_of(strtok(NULL," \n"));
       char *spec=strtok(NULL," \n"); dispatch_data_t d=build_regions(spec?spec:(char*)"-");
